@@ -9,11 +9,13 @@ import (
 func TestMain(m *testing.M) { vkit.Main(m) }
 
 func TestProp_Sequential(t *testing.T) { PartSeq.Run(t) }
+func TestProp_Gated(t *testing.T)      { PartGate.Run(t) }
 func TestProp_Concurrent(t *testing.T) { PartConc.Run(t) }
 func TestRace_Concurrent(t *testing.T) { PartConcRace.Run(t) }
 
 func TestReplay(t *testing.T) {
-	PartSeq.Replay(t, 1)
+	PartSeq.Replay(t, 20)
+	PartGate.Replay(t, 20)
 	PartConc.Replay(t, 200)
 	PartConcRace.Replay(t, 200)
 }
